@@ -1011,6 +1011,168 @@ def run_model(payload):
     return res
 
 
+def run_chain(payload):
+    """One hand-built meta-model in which one value carries several patterns and length
+    bounds from different levels of a chain of constrained primitives. The expected
+    constraints come from the harness (``spec``), not from ``infer_for_schema``."""
+    import cli
+    import frontend
+    import xmlschema
+    from aas_core_codegen import intermediate as I
+    from aas_core_codegen.python import naming as pyn
+
+    rng = random.Random(payload.get("seed", 0))
+    text = payload["model_text"]
+    spec = payload["spec"]
+    res = {"stage": "frontend", "valid_fail": [], "mutant_fail": [], "stats": {}}
+    st, _atok, rejection = frontend.load(text)
+    if rejection is not None:
+        res["frontend"] = rejection
+        return res
+    ns = st.meta_model.xml_namespace
+    tag = lcc(spec["cls"])
+    snippets_xsd = {"root_element.xml": (
+        '<xs:schema xmlns:xs="http://www.w3.org/2001/XMLSchema" '
+        f'xmlns="{ns}" elementFormDefault="qualified" targetNamespace="{ns}">\n'
+        f'    <xs:element name="{tag}" type="{tag}_t" />\n</xs:schema>\n')}
+    base = pathlib.Path(tempfile.mkdtemp(prefix="xsdchain-", dir=os.getcwd()))
+    original_tmp = tempfile.gettempdir()
+
+    def job(target, snippets, k):
+        jt = base / f"tmp{k}"
+        jt.mkdir()
+        tempfile.tempdir = str(jt)
+        try:
+            return cli.run_job({"model_text": text, "target": target, "snippets": snippets},
+                               base / f"job{k}", "text")
+        finally:
+            tempfile.tempdir = original_tmp
+
+    res["stage"] = "xsd"
+    rx = job("xsd", snippets_xsd, 0)
+    res["xsd"] = {"rc": rx["rc"], "exception": rx["exception"], "stderr": rx["stderr"][:1500]}
+    if rx["rc"] != 0 or rx["exception"] is not None:
+        return res
+    schema_text = rx["files"]["schema.xsd"]
+    XS = "{http://www.w3.org/2001/XMLSchema}"
+    sroot = ET.fromstring(schema_text)
+    res["pattern_facets"] = [p_.attrib.get("value", "") for p_ in sroot.iter(XS + "pattern")]
+    res["length_facets"] = [[e.tag[len(XS):], e.attrib.get("value")] for e in sroot.iter()
+                            if e.tag in (XS + "minLength", XS + "maxLength")]
+    res["stage"] = "load-schema"
+    schemas = []
+    res["schema_errors"] = []
+    for cls_ in (xmlschema.XMLSchema10, xmlschema.XMLSchema11):
+        try:
+            schemas.append(cls_(schema_text))
+        except Exception as exc:  # noqa
+            res["schema_errors"].append(
+                f"{cls_.__name__}: {type(exc).__name__}: " + " ".join(str(exc).split())[:400])
+    if res["schema_errors"]:
+        return res
+    res["stage"] = "python"
+    rp = job("python", payload["snippets_python"], 1)
+    res["python"] = {"rc": rp["rc"], "exception": rp["exception"], "stderr": rp["stderr"][:800]}
+    if rp["rc"] != 0 or rp["exception"] is not None:
+        return res
+    res["stage"] = "sdk-import"
+    try:
+        sdk = Sdk(rp["files"], base / "sdk")
+    except BaseException:  # noqa
+        res["sdk_error"] = traceback.format_exc()[-1500:]
+        return res
+    res["stage"] = "values"
+
+    pats = spec["patterns"]
+    lo, hi = spec["min"], spec["max"]
+    trees = [parse_pattern(p_).get("ok") for p_ in pats]
+    alpha = sorted(set(a for t in trees if t for a in alphabet_of(t)) | {ord(c) for c in "abxyABXYZNnm_"})
+
+    def fails(s):
+        """Indices of the violated constraints: patterns by index, 'min', 'max'."""
+        out = [i for i, p_ in enumerate(pats) if re.match(p_, s) is None]
+        if len(s) < lo:
+            out.append("min")
+        if hi is not None and len(s) > hi:
+            out.append("max")
+        return out
+
+    def candidates(n):
+        out = set()
+        tries = 0
+        while len(out) < n and tries < 40 * n:
+            tries += 1
+            t = rng.choice([t for t in trees if t])
+            s = gen_from(t, rng, alpha)
+            k = rng.random()
+            if k < 0.5:
+                s = mutate_string(s, rng, alpha)
+            if k < 0.2:
+                s = mutate_string(s, rng, alpha)
+            if len(s) <= 40 and all(xml_char_no_break(ord(c)) and c not in "&<>" for c in s):
+                out.add(s)
+        return sorted(out)
+
+    cands = candidates(payload.get("n_candidates", 2000))
+    by_fail = {}
+    for s in cands:
+        by_fail.setdefault(tuple(map(str, fails(s))), []).append(s)
+    valid = by_fail.get((), [])
+    rng.shuffle(valid)
+    klass = getattr(sdk.types, pyn.class_name(spec["cls"]))
+
+    def document(code):
+        inst = klass(marker="m", code=code)
+        return inst, sdk.xmlization.to_str(inst)
+
+    def accepted(doc):
+        return [type(sch).__name__ for sch in schemas if sch.is_valid(doc)]
+
+    stats = {"candidates": len(cands), "valid_values": 0, "sdk_disagrees": 0, "mutants": {},
+             "no_single_violation_for": []}
+    for s in valid[: payload.get("n_values", 12)]:
+        inst, doc = document(s)
+        errs = list(sdk.verification.verify(inst))
+        if errs:
+            stats["sdk_disagrees"] += 1
+            res["valid_fail"].append({"kind": "sdk-rejects-spec-valid-value", "value": s,
+                                      "errors": [str(e.cause)[:120] for e in errs[:2]]})
+            continue
+        stats["valid_values"] += 1
+        acc = accepted(doc)
+        if len(acc) < len(schemas):
+            res["valid_fail"].append({"kind": "valid-value-rejected", "value": s, "document": doc,
+                                      "accepted_by": acc})
+    if spec["optional"]:
+        inst, doc = document(None)
+        if not list(sdk.verification.verify(inst)) and len(accepted(doc)) < len(schemas):
+            res["valid_fail"].append({"kind": "valid-value-rejected", "value": None, "document": doc})
+    kinds = [str(i) for i in range(len(pats))] + (["min"] if lo > 0 else []) + (["max"] if hi is not None else [])
+    for k in kinds:
+        pool = by_fail.get((k,), [])
+        if not pool:
+            stats["no_single_violation_for"].append(k)
+            continue
+        rng.shuffle(pool)
+        label = f"pattern[{k}]={pats[int(k)]}" if k.isdigit() else k + "-length"
+        for s in pool[:4]:
+            inst, doc = document(s)
+            sdk_errs = list(sdk.verification.verify(inst))
+            if not sdk_errs:
+                stats["sdk_disagrees"] += 1
+                continue
+            kk = "pattern" if k.isdigit() else "len-" + k
+            stats["mutants"][kk] = stats["mutants"].get(kk, 0) + 1
+            acc = accepted(doc)
+            if acc:
+                res["mutant_fail"].append({"kind": kk, "violates": label, "value": s,
+                                           "accepted_by": acc, "document": doc})
+    res["stats"] = stats
+    res["stage"] = "done"
+    shutil.rmtree(base, ignore_errors=True)
+    return res
+
+
 def main():
     payload = json.load(sys.stdin)
     mode = payload.get("mode")
@@ -1019,6 +1181,13 @@ def main():
     elif mode == "model":
         try:
             out = run_model(payload)
+        except BaseException as exc:  # noqa
+            if isinstance(exc, KeyboardInterrupt):
+                raise
+            out = {"stage": "adapter-exception", "traceback": traceback.format_exc()[-3000:]}
+    elif mode == "chain":
+        try:
+            out = run_chain(payload)
         except BaseException as exc:  # noqa
             if isinstance(exc, KeyboardInterrupt):
                 raise
